@@ -138,7 +138,7 @@ def pathKind (sym : String) : PathKind :=
   if sym = "valid" ∨ sym = "testing" ∨ hasPrefix "okd." sym = true then .dataset
   else if sym = "badcsv" then .badDataset
   else if hasPrefix "mal." sym = true then .malformedDataset
-  else if sym = "notcsv" ∨ sym = "file" ∨ hasPrefix "unl." sym = true then .file
+  else if sym = "notcsv" ∨ sym = "file" ∨ sym = "devnull" ∨ sym = "fifo" ∨ hasPrefix "unl." sym = true then .file
   else if sym = "dir" ∨ sym = "exists" then .dir
   else if sym = "underfile" then .underFile
   else .missing
